@@ -21,4 +21,5 @@ open XotModel.Props
 #print axioms C16_events_order
 #print axioms C16_normalizer_tokens
 #print axioms C16_normalizer_write
+#print axioms C16_normalizer_write_fail
 #print axioms C16_normalizer_events
